@@ -39,6 +39,11 @@ def run(w: World, rep: Report):
     _r2(w, rep, eff)
     _r3(w, rep, eff)
     _r4(w, rep, eff)
+    from .report import depend
+    depend(rep, w, 'rules_c09', ('C09.R1',), 'C19.TD9',
+           'an active registry entry is used by every part of an execution: the contracts and plugins of a run (registry '
+           'merged with the embedder\'s) reach every tape, including each further script of run_auth_scripts (C09.R1 '
+           're-evaluated)', floor=30)
     rep.explanation = (
         'Decides the history channels of C19 structurally: iteration/mutation conflicts on every loop and '
         'comprehension (R1), who may write each module-level registry and unreachability of the writers from '
